@@ -82,6 +82,9 @@ pub enum Clock {
     Unbond(i8),
     /// past everything: unbonding + epoch + 1
     Long,
+    /// to the unbonding boundary of the *youngest* undelegated, unreleased batch + offset (older batches have then
+    /// matured earlier without anybody withdrawing in between)
+    UnbondYoungest(i8),
 }
 
 #[derive(Clone, Debug, PartialEq, Serialize, Deserialize)]
@@ -328,6 +331,7 @@ pub fn clock_strategy() -> BoxedStrategy<Clock> {
         2 => (1u16..4).prop_map(Clock::Secs),
         4 => (-1i8..=2).prop_map(Clock::Epoch),
         4 => (-1i8..=1).prop_map(Clock::Unbond),
+        2 => (-1i8..=1).prop_map(Clock::UnbondYoungest),
         2 => Just(Clock::Long),
     ]
     .boxed()
@@ -501,7 +505,7 @@ pub fn release_scenario_strategy(cfgs: BoxedStrategy<Cfg>) -> BoxedStrategy<Hist
                 Just(cfg),
                 proptest::collection::vec((0u8..6, any::<bool>(), bond_amt), 2..7),
                 proptest::collection::vec(batch(small), k..=k),
-                prop_oneof![Just(Clock::Unbond(0)), Just(Clock::Unbond(1)), Just(Clock::Long), Just(Clock::Unbond(-1))],
+                prop_oneof![Just(Clock::Unbond(0)), Just(Clock::Unbond(1)), Just(Clock::Long), Just(Clock::Unbond(-1)), Just(Clock::UnbondYoungest(0)), Just(Clock::UnbondYoungest(0)), Just(Clock::UnbondYoungest(1))],
                 proptest::collection::vec(0u8..8, 2..10),
                 any::<bool>(),
             )
@@ -1149,6 +1153,16 @@ impl Interp {
                     Clock::Unbond(d) => {
                         let h = hub_history(w);
                         match h.iter().find(|h| !h.released) {
+                            Some(h) => {
+                                let target = (h.time + self.hub_unbonding(w)) as i128 + *d as i128;
+                                (target - w.time as i128).max(1) as u64
+                            }
+                            None => 1,
+                        }
+                    }
+                    Clock::UnbondYoungest(d) => {
+                        let h = hub_history(w);
+                        match h.iter().rev().find(|h| !h.released) {
                             Some(h) => {
                                 let target = (h.time + self.hub_unbonding(w)) as i128 + *d as i128;
                                 (target - w.time as i128).max(1) as u64
